@@ -171,6 +171,12 @@ class Walker:
                     return self.sizes[name]
                 raise Opaque("size() of a vector whose length is not fixed by a resize: " + name)
             raise Opaque("call " + str(cn))
+        if k in ("CXXOperatorCallExpr", "ArraySubscriptExpr"):
+            name, uses, _ = self.lval(e)
+            return ("var", name, uses)
+        if k == "ConditionalOperator":
+            c, a, b = (self.expr(x) for x in e["inner"][:3])
+            return ("bin", 0, ("bin", 2, ("bin", 9, c, lit(0)), a), ("bin", 2, ("bin", 5, c, lit(0)), b))
         if k == "UnaryExprOrTypeTraitExpr" and e.get("name") == "sizeof":
             at = e.get("argType", {}).get("qualType") or (strip(e["inner"][0])["type"]["qualType"] if e.get("inner") else None)
             if at:
@@ -592,6 +598,12 @@ class Walker:
                     raise Opaque(f"{name} is synced inside a loop that does not index it")
                 n = self.expr(args[1])
                 lid = self.new_loop()
+                if n[0] == "bin" and n[1] == 2 and n[3][0] == "sizeofE":
+                    self.sizes[name] = n[2]
+                    return [("rep", n[2], lid, [("sc", ("sizeof", n[3][1]), name + "[]")])]
+                if n[0] == "bin" and n[1] == 2 and n[2][0] == "sizeofE":
+                    self.sizes[name] = n[3]
+                    return [("rep", n[3], lid, [("sc", ("sizeof", n[2][1]), name + "[]")])]
                 return [("rep", n, lid, [("sc", ("w", 1), name + "#bytes[]")])]
             raise Opaque("raw Sync of a computed size")
         if cn in ("SetKeepEmptyRefs", "SetSize"):
@@ -799,6 +811,10 @@ class Translator:
         return w.block(Walker.body_of(self.syncs[cls]["body"]))
 
     def schema_of(self, cls):
+        # block type names are the C++ class names, except that "::" is dropped in the class name (BSSkin::Instance)
+        cls = cls if cls in self.classes else cls.replace("::", "")
+        if cls not in self.classes:
+            raise Opaque("no class of that name in the translation units")
         self.concrete = cls
         out = []
         for c in self.chain(cls):
@@ -1219,6 +1235,9 @@ def generate(repo=None, out=None, types=None, verenv=None):
             except KeyError as e:
                 opaque[t + "@" + vn] = "size or enum value unknown: " + str(e)
                 continue
+            except Exception as e:      # a translator bug must never pass for a schema
+                opaque[t + "@" + vn] = "translator error: " + repr(e)[:100]
+                continue
             key = json.dumps(ss)
             index[(t, vn)] = uniq.setdefault(key, len(uniq))
     schemas = [json.loads(k) for k in uniq]
@@ -1228,8 +1247,13 @@ def generate(repo=None, out=None, types=None, verenv=None):
          "import NiflyVerif.Wire.Schema", "namespace Nifly.Generated", "open Nifly.Schema", ""]
     for i, ss in enumerate(schemas):
         L.append(f"def schema{i} : Stmt := {lean_stmts(ss)}")
-    L += ["", "/-- the distinct wire schemas of the in-fragment (block type, version) pairs -/",
-          "def schemas : List Stmt := [" + ", ".join(f"schema{i}" for i in range(len(schemas))) + "]", "",
+    CH = 40
+    nch = max(1, (len(schemas) + CH - 1) // CH)
+    for c in range(nch):
+        L.append(f"def schemaChunk{c} : List Stmt := [" + ", ".join(f"schema{i}" for i in range(c * CH, min(len(schemas), (c + 1) * CH))) + "]")
+    L += ["", "def schemaChunks : List (List Stmt) := [" + ", ".join(f"schemaChunk{c}" for c in range(nch)) + "]", "",
+          "/-- the distinct wire schemas of the in-fragment (block type, version) pairs -/",
+          "def schemas : List Stmt := schemaChunks.flatten", "",
           ]
     items = [f"({json.dumps(t)}, {json.dumps(v)}, {i})" for (t, v), i in sorted(index.items())]
     chunks = [items[k:k + 150] for k in range(0, len(items), 150)] or [[]]
@@ -1249,6 +1273,31 @@ def generate(repo=None, out=None, types=None, verenv=None):
     txt = "\n".join(L)
     if not os.path.exists(out) or open(out).read() != txt:
         open(out, "w").write(txt)
+    # well-formedness is decided chunk by chunk in separate modules (built in parallel) and assembled in SchemasWf.lean
+    gdir = os.path.dirname(out)
+    keep = set()
+    for c in range(nch):
+        f = os.path.join(gdir, f"SchemasWf{c}.lean")
+        keep.add(os.path.basename(f))
+        t = ("/- GENERATED by translator/schema.py. DO NOT EDIT. -/\nimport NiflyVerif.Generated.Schemas\nnamespace Nifly.Generated\nopen Nifly.Schema\n\n"
+             f"theorem wf_chunk{c} : ∀ s ∈ schemaChunk{c}, (wf 0 s [] []).isSome = true := by decide +kernel\n\nend Nifly.Generated\n")
+        if not os.path.exists(f) or open(f).read() != t:
+            open(f, "w").write(t)
+    for f in os.listdir(gdir):
+        if re.match(r"SchemasWf\d+\.lean$", f) and f not in keep:
+            os.remove(os.path.join(gdir, f))
+    alts = " | ".join(["rfl"] * nch)
+    firsts = " | ".join(f"exact wf_chunk{c} s hs" for c in range(nch))
+    t = ("/- GENERATED by translator/schema.py. DO NOT EDIT. -/\n" + "".join(f"import NiflyVerif.Generated.SchemasWf{c}\n" for c in range(nch)) +
+         "namespace Nifly.Generated\nopen Nifly.Schema\n\n"
+         "/-- every generated schema obeys the static discipline (assembled from the per-chunk kernel evaluations) -/\n"
+         "theorem schemas_wf : ∀ s ∈ schemas, (wf 0 s [] []).isSome = true := by\n"
+         "  intro s hs\n  unfold schemas at hs\n  obtain ⟨l, hl, hs⟩ := List.mem_flatten.1 hs\n"
+         "  simp only [schemaChunks, List.mem_cons, List.not_mem_nil, or_false] at hl\n"
+         f"  rcases hl with {alts}\n  all_goals first | {firsts}\n\nend Nifly.Generated\n")
+    f = os.path.join(gdir, "SchemasWf.lean")
+    if not os.path.exists(f) or open(f).read() != t:
+        open(f, "w").write(t)
     return dict(index=index, opaque=opaque, names=names, schemas=schemas, types=types, versions=vnames, normalisers=sorted(tr.normalisers),
                 unsynced_control={t: sorted(v) for t, v in sorted(unsynced.items())})
 
